@@ -5,6 +5,13 @@
 // with a modifier behaviour (pass, request error, response error, skip round trip, round-trip error,
 // hijack in the request or response modifier) x an optional second concurrent connection. Every schedule
 // within the deviation bound is executed; the oracle is computed from the recorded calls.
+//
+// Added by the coverage audit (AUDIT.md): modifiers that change the messages (every behaviour but "pass"),
+// requests with a body, two errors on one response, clients that leave before the answer, a downstream proxy
+// that hangs up, a request already buffered behind the hijacked one, second connections with behaviours of
+// their own, a later connection after all others have ended; oracle clauses for contexts that outlive their
+// exchange while the connection lives on, session ids and stored values, Warning texts, the upstream order
+// of a blind CONNECT and what a downstream proxy is sent.
 package main
 
 import (
@@ -19,6 +26,7 @@ import (
 	"net/http"
 	"net/url"
 	"os"
+	"sort"
 	"strings"
 	"time"
 
@@ -37,12 +45,76 @@ type scenario struct {
 	Beh    []string // behaviour per exchange on connection 0 (for CONNECT modes Beh[0] is the CONNECT exchange)
 	Second bool     // a second connection runs one plain "pass" exchange concurrently
 	Down   bool     // blind CONNECT only: the proxy is configured with a downstream proxy (the dialled peer answers the forwarded CONNECT itself)
-	Pipe   bool     // the client writes all its requests before it reads the first response
+	Pipe   bool     // the client writes all its requests before it reads the first response (when the last behaviour hijacks, one more request follows it in the same write)
+	Mode2  string   `json:",omitempty"` // mode of the second connection (default plain; plain | mitm-plain | mitm-tls)
+	Beh2   []string `json:",omitempty"` // behaviours of the second connection (default: one "pass" exchange)
+	After  bool     `json:",omitempty"` // once everything has quiesced (all earlier connections closed) a further connection runs one plain exchange
+	Lean   bool     `json:",omitempty"` // the harness modifiers do not probe the session's value store and the requests of earlier exchanges (each probe is a lock operation in martian, i.e. a scheduling point); set for the scenarios explored at deviation bound 3
 }
 
 func (s scenario) String() string {
-	return fmt.Sprintf("mode=%s beh=%v second=%v pipelined=%v downstream=%v", s.Mode, s.Beh, s.Second, s.Pipe, s.Down)
+	out := fmt.Sprintf("mode=%s beh=%v second=%v pipelined=%v downstream=%v", s.Mode, s.Beh, s.Second, s.Pipe, s.Down)
+	if s.Mode2 != "" || s.Beh2 != nil {
+		out += fmt.Sprintf(" mode2=%s beh2=%v", s.mode2(), s.beh2())
+	}
+	if s.After {
+		out += " later-connection=true"
+	}
+	if s.Lean {
+		out += " lean=true"
+	}
+	return out
 }
+
+func (s scenario) mode2() string {
+	if s.Mode2 == "" {
+		return "plain"
+	}
+	return s.Mode2
+}
+
+func (s scenario) beh2() []string {
+	if s.Beh2 == nil {
+		return []string{"pass"}
+	}
+	return s.Beh2
+}
+
+// spec returns mode and behaviours of a connection: "0" the first, "1" the concurrent second, "2" the later one.
+func (s scenario) spec(conn string) (string, []string) {
+	switch conn {
+	case "0":
+		return s.Mode, s.Beh
+	case "1":
+		return s.mode2(), s.beh2()
+	}
+	return "plain", []string{"pass"}
+}
+
+// mutates: every behaviour except the literal "pass" also changes the messages: the request modifier sets
+// X-Req-Mut and the response modifier X-Res-Mut to "<conn>/<seq>" (the "mutate" value of the statement's
+// quantifier; "mut" is the behaviour that does only this).
+func mutates(beh string) bool { return beh != "pass" }
+
+// expect returns how many exchanges of a connection the modifiers must see and which of them hijacks (-1: none).
+func expect(mode string, beh []string) (nExpected, hijackedAt int) {
+	hijackedAt = -1
+	nExpected = len(beh)
+	for k, b := range beh {
+		if isHijack(b) {
+			return k + 1, k
+		}
+		if k == 0 && mode != "plain" && (has(b, "dialerr") || has(b, "downerr") || has(b, "gone")) {
+			return 1, -1
+		}
+		if mode == "blind" {
+			return 1, -1
+		}
+	}
+	return
+}
+
+const postBody = "hello"
 
 type call struct {
 	Kind    string // req | res
@@ -58,6 +130,10 @@ type call struct {
 	Scheme  string
 	Warning string
 	Stale   string // context marks (skip round trip, skip logging, API request) or values already set when the call started
+	ReqMut  string // X-Req-Mut as seen by the round tripper
+	Body    string // request body as read by the round tripper
+	Linger  string // earlier exchanges of the same connection whose request still resolved to a context when this request modifier started
+	SessVal string // "foreign:<conn>" / "lost": what the session's value store showed when this request modifier started
 }
 
 type finding struct{ Sig, Desc string }
@@ -111,35 +187,47 @@ func run(sc scenario) (body func(), check func(r *vrt.Result) []finding) {
 	var calls []call
 	var rtCalls []call
 	var retained []*http.Request
+	type kept struct {
+		conn string
+		seq  int
+		req  *http.Request
+	}
+	var keptReqs []kept
+	type downObs struct{ Warning, ReqMut string }
+	var downSeen []downObs
 	var staleCtx int
 	var dials int
+	var dialTicks []int
 	type clientObs struct {
-		conn      string
-		statuses  []int
-		warnings  []bool
-		gotMarker bool
-		eofAfter  bool
-		extra     string
-		err       string
-		done      bool
-		sentAfterHijack bool
+		conn               string
+		statuses           []int
+		warnings           []bool
+		warnText           []string // all Warning values of each response
+		resMut             []string // X-Res-Mut of each response
+		gotMarker          bool
+		eofAfter           bool
+		extra              string
+		err                string
+		done               bool
+		sentAfterHijack    bool
+		left               bool // the client closed behind its last request without reading the answer
+		closedAfterConnect bool // the proxy closed the connection right after its 200 to the CONNECT (nothing inside the tunnel was answered)
 	}
 	var obs []*clientObs
 	var hijackRetTick map[string]int
 	var srvConn map[string]*simnet.Conn
 	behOf := func(conn, seq string) string {
-		if conn != "0" {
-			return "pass"
-		}
+		_, beh := sc.spec(conn)
 		var k int
 		fmt.Sscanf(seq, "%d", &k)
-		if k < len(sc.Beh) {
-			return sc.Beh[k]
+		if k < len(beh) {
+			return beh[k]
 		}
 		return "pass"
 	}
 	body = func() {
 		calls, rtCalls, obs, retained = nil, nil, nil, nil
+		keptReqs, downSeen, dialTicks = nil, nil, nil
 		dials = 0
 		hijackRetTick = map[string]int{}
 		srvConn = map[string]*simnet.Conn{}
@@ -172,7 +260,44 @@ func run(sc scenario) (body func(), check func(r *vrt.Result) []finding) {
 					}
 					c.Stale = strings.Join(st, "+")
 					c.Ctx.Set("c02.mark", c.Seq)
+					// the session's value store belongs to this connection alone and lasts as long as it does
+					earlier := false
+					for _, k := range keptReqs {
+						earlier = earlier || k.conn == c.Conn
+					}
+					if !sc.Lean {
+						if v, ok := c.Sess.Get("c02.conn"); ok {
+							if v != c.Conn {
+								c.SessVal = fmt.Sprintf("foreign:%v", v)
+							}
+						} else if earlier {
+							c.SessVal = "lost"
+						}
+						c.Sess.Set("c02.conn", c.Conn)
+					}
 				}
+			}
+			if kind == "req" {
+				// once an exchange has ended its request resolves to no context any more - also while the
+				// connection lives on. (The CONNECT exchange of an intercepted tunnel is still on the stack
+				// while the first request inside the tunnel is served: its handler returns afterwards.)
+				var seq int
+				fmt.Sscanf(c.Seq, "%d", &seq)
+				mode, _ := sc.spec(c.Conn)
+				var lg []string
+				for _, k := range keptReqs {
+					if k.conn != c.Conn || k.seq >= seq || k.req == req {
+						continue
+					}
+					if mode != "plain" && k.seq == 0 && seq == 1 {
+						continue
+					}
+					if !sc.Lean && martian.NewContext(k.req) != nil {
+						lg = append(lg, fmt.Sprint(k.seq))
+					}
+				}
+				c.Linger = strings.Join(lg, ",")
+				keptReqs = append(keptReqs, kept{c.Conn, seq, req})
 			}
 			return c
 		}
@@ -191,6 +316,9 @@ func run(sc scenario) (body func(), check func(r *vrt.Result) []finding) {
 			calls = append(calls, c)
 			retained = append(retained, req)
 			b := behOf(c.Conn, c.Seq)
+			if mutates(b) {
+				req.Header.Set("X-Req-Mut", c.Conn+"/"+c.Seq)
+			}
 			if has(b, "preapi") {
 				c.Ctx.APIRequest() // another modifier marked the exchange as addressed to the proxy's API first
 			}
@@ -217,6 +345,9 @@ func run(sc scenario) (body func(), check func(r *vrt.Result) []finding) {
 			c.Warning = res.Header.Get("Warning")
 			calls = append(calls, c)
 			b := behOf(c.Conn, c.Seq)
+			if mutates(b) {
+				res.Header.Set("X-Res-Mut", c.Conn+"/"+c.Seq)
+			}
 			if has(b, "hijack-res") {
 				hijack(res.Request)
 				hijackRetTick[c.Conn] = vrt.Tick()
@@ -228,7 +359,13 @@ func run(sc scenario) (body func(), check func(r *vrt.Result) []finding) {
 		}
 		w.Respond = func(req *http.Request) (*http.Response, error) {
 			c := rec("rt", req, req.Header)
-			c.Warning = req.Header.Get("Warning")
+			c.Warning = strings.Join(req.Header["Warning"], "\n")
+			c.ReqMut = req.Header.Get("X-Req-Mut")
+			if b := behOf(c.Conn, c.Seq); req.Body != nil && !has(b, "rterr") {
+				// like a transport, send the body (a failing round trip leaves it unread)
+				bb, _ := io.ReadAll(req.Body)
+				c.Body = string(bb)
+			}
 			rtCalls = append(rtCalls, c)
 			// like http.Transport, refuse to send header fields that are not valid on the wire
 			for name, vs := range req.Header {
@@ -260,6 +397,7 @@ func run(sc scenario) (body func(), check func(r *vrt.Result) []finding) {
 		// blind tunnels dial a target that echoes one line
 		w.Proxy.SetDial(func(network, addr string) (net.Conn, error) {
 			dials++
+			dialTicks = append(dialTicks, vrt.Tick())
 			if has(behOf("0", "0"), "dialerr") {
 				return nil, errors.New("simulated dial failure")
 			}
@@ -268,7 +406,14 @@ func run(sc scenario) (body func(), check func(r *vrt.Result) []finding) {
 				br := bufio.NewReader(b)
 				if sc.Down {
 					// the downstream proxy: answer the forwarded CONNECT, then behave as the tunnel's target
-					if req, err := http.ReadRequest(br); err != nil || req.Method != "CONNECT" {
+					req, err := http.ReadRequest(br)
+					if err != nil || req.Method != "CONNECT" {
+						b.Close()
+						return
+					}
+					downSeen = append(downSeen, downObs{strings.Join(req.Header["Warning"], "\n"), req.Header.Get("X-Req-Mut")})
+					if has(behOf("0", "0"), "downerr") {
+						// the downstream proxy hangs up instead of answering: the other way into the 502 path
 						b.Close()
 						return
 					}
@@ -288,7 +433,7 @@ func run(sc scenario) (body func(), check func(r *vrt.Result) []finding) {
 			w.Proxy.SetDownstreamProxy(u)
 		}
 		w.Start()
-		client := func(name string, mode string, beh []string) {
+		client := func(name string, mode string, beh []string, pipelined bool) {
 			o := &clientObs{conn: name}
 			obs = append(obs, o)
 			defer func() { o.done = true }()
@@ -321,8 +466,18 @@ func run(sc scenario) (body func(), check func(r *vrt.Result) []finding) {
 			}
 			start := 0
 			if mode != "plain" {
-				fmt.Fprintf(cl.C, "CONNECT origin.test:443 HTTP/1.1\r\nHost: origin.test:443\r\nX-Conn: %s\r\nX-Seq: 0\r\n\r\n", name)
 				b0 := beh[0]
+				first := fmt.Sprintf("CONNECT origin.test:443 HTTP/1.1\r\nHost: origin.test:443\r\nX-Conn: %s\r\nX-Seq: 0\r\n\r\n", name)
+				if pipelined && isHijack(b0) {
+					// a request right behind the CONNECT whose exchange is hijacked, in the same segment
+					first += fmt.Sprintf("GET /x HTTP/1.1\r\nHost: origin.test\r\nX-Conn: %s\r\nX-Seq: 98\r\n\r\n", name)
+				}
+				io.WriteString(cl.C, first)
+				if has(b0, "gone") {
+					cl.C.Close()
+					o.left = true
+					return
+				}
 				if isHijack(b0) {
 					readMarkerOrEOF(br)
 					return
@@ -334,6 +489,8 @@ func run(sc scenario) (body func(), check func(r *vrt.Result) []finding) {
 				}
 				o.statuses = append(o.statuses, res.StatusCode)
 				o.warnings = append(o.warnings, res.Header.Get("Warning") != "")
+				o.warnText = append(o.warnText, strings.Join(res.Header["Warning"], "\n"))
+				o.resMut = append(o.resMut, res.Header.Get("X-Res-Mut"))
 				if res.StatusCode != 200 {
 					return
 				}
@@ -365,47 +522,74 @@ func run(sc scenario) (body func(), check func(r *vrt.Result) []finding) {
 					br = bufio.NewReader(tc)
 				}
 			}
-			pipelined := sc.Pipe && name == "0"
-			if pipelined {
-				for k := start; k < len(beh); k++ {
-					target := "http://origin.test/x"
-					if mode == "mitm-tls" || mode == "mitm-plain" {
-						target = "/x"
-					}
-					fmt.Fprintf(rw, "GET %s HTTP/1.1\r\nHost: origin.test\r\nX-Conn: %s\r\nX-Seq: %d\r\n\r\n", target, name, k)
+			target := "http://origin.test/x"
+			if mode == "mitm-tls" || mode == "mitm-plain" {
+				target = "/x"
+			}
+			render := func(k int, b string) string {
+				if has(b, "post") {
+					return fmt.Sprintf("POST %s HTTP/1.1\r\nHost: origin.test\r\nX-Conn: %s\r\nX-Seq: %d\r\nContent-Length: %d\r\n\r\n%s", target, name, k, len(postBody), postBody)
 				}
+				return fmt.Sprintf("GET %s HTTP/1.1\r\nHost: origin.test\r\nX-Conn: %s\r\nX-Seq: %d\r\n\r\n", target, name, k)
+			}
+			if pipelined {
+				var all string
+				for k := start; k < len(beh); k++ {
+					all += render(k, beh[k])
+				}
+				if isHijack(beh[len(beh)-1]) {
+					// one more request right behind the one whose exchange is hijacked: it is already in the
+					// proxy's read buffer when the modifier takes the connection over
+					all += render(98, "pass")
+				}
+				io.WriteString(rw, all)
 			}
 			for k := start; k < len(beh); k++ {
-				target := "http://origin.test/x"
-				if mode == "mitm-tls" || mode == "mitm-plain" {
-					target = "/x"
-				}
 				if !pipelined {
-					fmt.Fprintf(rw, "GET %s HTTP/1.1\r\nHost: origin.test\r\nX-Conn: %s\r\nX-Seq: %d\r\n\r\n", target, name, k)
+					io.WriteString(rw, render(k, beh[k]))
 				}
 				if isHijack(beh[k]) {
 					readMarkerOrEOF(br)
 					return
 				}
+				if has(beh[k], "gone") {
+					// the client does not wait for the answer: it closes right behind its request. The request
+					// is still one the proxy reads, so both modifiers owe it their single call.
+					cl.C.Close()
+					o.left = true
+					return
+				}
 				res, err := http.ReadResponse(br, &http.Request{Method: "GET"})
 				if err != nil {
 					o.err = fmt.Sprintf("exchange %d: %v", k, err)
+					o.closedAfterConnect = mode != "plain" && k == 1 && (err == io.EOF || err == io.ErrUnexpectedEOF || pworld.IsReset(err))
 					return
 				}
 				io.ReadAll(res.Body)
 				o.statuses = append(o.statuses, res.StatusCode)
 				o.warnings = append(o.warnings, res.Header.Get("Warning") != "")
+				o.warnText = append(o.warnText, strings.Join(res.Header["Warning"], "\n"))
+				o.resMut = append(o.resMut, res.Header.Get("X-Res-Mut"))
 			}
 		}
-		t0 := vrt.GoNamed("client0", func() { client("0", sc.Mode, sc.Beh) })
+		t0 := vrt.GoNamed("client0", func() { client("0", sc.Mode, sc.Beh, sc.Pipe) })
 		var t1 *vrt.Thread
 		if sc.Second {
-			t1 = vrt.GoNamed("client1", func() { client("1", "plain", []string{"pass"}) })
+			t1 = vrt.GoNamed("client1", func() { client("1", sc.mode2(), sc.beh2(), false) })
 		}
 		vrt.WaitQuiescent()
 		if !t0.Done() || (t1 != nil && !t1.Done()) {
 			vrt.Sleep(11 * time.Minute)
 			vrt.WaitQuiescent()
+		}
+		if sc.After {
+			// history across connections: everything above is over and closed; a new connection arrives
+			t2 := vrt.GoNamed("client2", func() { client("2", "plain", []string{"pass"}, false) })
+			vrt.WaitQuiescent()
+			if !t2.Done() {
+				vrt.Sleep(11 * time.Minute)
+				vrt.WaitQuiescent()
+			}
 		}
 		for _, rq := range retained {
 			if martian.NewContext(rq) != nil {
@@ -413,10 +597,10 @@ func run(sc scenario) (body func(), check func(r *vrt.Result) []finding) {
 			}
 		}
 		for _, c := range calls {
-			vrt.Log("%s conn=%s seq=%s ctx=%v", c.Kind, c.Conn, c.Seq, c.Ctx != nil)
+			vrt.Log("%s conn=%s seq=%s ctx=%v linger=%q sess=%q", c.Kind, c.Conn, c.Seq, c.Ctx != nil, c.Linger, c.SessVal)
 		}
 		for _, o := range obs {
-			vrt.Log("client %s: %v %v marker=%v eof=%v extra=%q err=%q done=%v", o.conn, o.statuses, o.warnings, o.gotMarker, o.eofAfter, o.extra, o.err, o.done)
+			vrt.Log("client %s: %v %v %q marker=%v eof=%v extra=%q err=%q done=%v", o.conn, o.statuses, o.warnings, o.resMut, o.gotMarker, o.eofAfter, o.extra, o.err, o.done)
 		}
 		vrt.Log("stale=%d", staleCtx)
 	}
@@ -445,27 +629,11 @@ func run(sc scenario) (body func(), check func(r *vrt.Result) []finding) {
 			k := key{c.Conn, c.Seq}
 			rts[k] = append(rts[k], c)
 		}
-		// expected exchanges on connection 0
-		hijackedAt := -1
-		nExpected := len(sc.Beh)
-		for k, b := range sc.Beh {
-			if isHijack(b) {
-				hijackedAt = k
-				nExpected = k + 1
-				break
-			}
-			if k == 0 && sc.Mode != "plain" && has(b, "dialerr") {
-				nExpected = 1
-				break
-			}
-			if sc.Mode == "blind" {
-				nExpected = 1
-				break
-			}
-		}
 		ids := map[string]key{}
 		sessByConn := map[string]*martian.Session{}
+		sessIDByConn := map[string]string{}
 		checkExchange := func(conn string, k int, beh string) {
+			mode, _ := sc.spec(conn)
 			ky := key{conn, fmt.Sprint(k)}
 			btag := tag + ":" + beh
 			rq := reqs[ky]
@@ -478,28 +646,71 @@ func run(sc scenario) (body func(), check func(r *vrt.Result) []finding) {
 				add("no_context_in_reqmod:"+btag, "exchange %v: no context retrievable inside the request modifier", ky)
 				return
 			}
+			isConnect := mode != "plain" && k == 0
+			wantMethod := "GET"
+			switch {
+			case isConnect:
+				wantMethod = "CONNECT"
+			case has(beh, "post"):
+				wantMethod = "POST"
+			}
+			if c.Method != wantMethod {
+				add("reqmod_wrong_request:"+btag, "exchange %v: the request modifier was handed a %q request, the client sent %s (the proxy is out of frame)", ky, c.Method, wantMethod)
+			}
 			if c.Stale != "" {
-			add("context_not_fresh:"+tag+":"+c.Stale, "exchange %v: when the request modifier started the context already carried %s from an earlier exchange", ky, c.Stale)
-		}
-		if prev, dup := ids[c.CtxID]; dup {
+				add("context_not_fresh:"+tag+":"+c.Stale, "exchange %v: when the request modifier started the context already carried %s from an earlier exchange", ky, c.Stale)
+			}
+			if c.Linger != "" {
+				add("context_outlives_exchange:"+tag, "exchange %v: when its request modifier started, the requests of finished exchanges %s of the same connection still resolved to a context (martian.NewContext)", ky, c.Linger)
+			}
+			if strings.HasPrefix(c.SessVal, "foreign") {
+				add("session_value_from_other_connection:"+tag, "exchange %v: the session already held a value stored on another connection (%s)", ky, c.SessVal)
+			} else if c.SessVal == "lost" {
+				add("session_value_lost:"+tag, "exchange %v: a value stored in the session by an earlier exchange of the connection is gone", ky)
+			}
+			if prev, dup := ids[c.CtxID]; dup {
 				add("context_id_reused:"+btag, "exchanges %v and %v share context id %s", prev, ky, c.CtxID)
 			}
 			ids[c.CtxID] = ky
 			if s, ok := sessByConn[conn]; ok && s != c.Sess {
 				add("session_not_shared:"+btag, "exchange %v runs in a different session than earlier exchanges of its connection", ky)
 			}
+			if id, ok := sessIDByConn[conn]; ok && id != c.SessID {
+				add("session_not_shared:"+btag, "exchange %v: the session's id changed within the connection (%s, then %s)", ky, id, c.SessID)
+			}
 			sessByConn[conn] = c.Sess
-			isConnect := conn == "0" && sc.Mode != "plain" && k == 0
+			sessIDByConn[conn] = c.SessID
+			want := conn + "/" + fmt.Sprint(k)
 			// upstream contact
 			switch {
 			case has(beh, "skip") || has(beh, "hijack-req"):
 				if len(rts[ky]) != 0 {
 					add("upstream_contact_unexpected:"+btag, "exchange %v: %d round trips although the modifier asked to %s", ky, len(rts[ky]), beh)
 				}
-				if isConnect && sc.Mode == "blind" && dials != 0 {
+				if isConnect && mode == "blind" && dials != 0 {
 					add("upstream_contact_unexpected:"+btag, "exchange %v: the CONNECT target was dialled %d times although the modifier asked to %s", ky, dials, beh)
 				}
 			case isConnect:
+				if mode == "blind" {
+					// the upstream contact of a tunnel is the dial (and the CONNECT forwarded to a downstream proxy)
+					if dials < 1 {
+						add("dial_count:"+btag, "exchange %v: the CONNECT target was never dialled", ky)
+					} else if dialTicks[0] < c.Tick {
+						add("upstream_before_reqmod:"+btag, "exchange %v: the CONNECT target was dialled before the request modifier ran", ky)
+					}
+					if sc.Down && !has(beh, "dialerr") && !has(beh, "gone") {
+						if len(downSeen) != 1 {
+							add("roundtrip_count:"+btag, "exchange %v: the downstream proxy received %d CONNECT requests (want 1)", ky, len(downSeen))
+						} else {
+							if mutates(beh) && downSeen[0].ReqMut != want {
+								add("reqmod_change_lost:"+btag, "exchange %v: the CONNECT forwarded to the downstream proxy does not carry the header the request modifier set (X-Req-Mut=%q)", ky, downSeen[0].ReqMut)
+							}
+							if has(beh, "reqerr") && !strings.Contains(downSeen[0].Warning, "request modifier failed") {
+								add("reqerr_no_warning:"+btag, "exchange %v: request modifier error not surfaced as a Warning header on the CONNECT forwarded to the downstream proxy (Warning=%q)", ky, downSeen[0].Warning)
+							}
+						}
+					}
+				}
 			default:
 				if len(rts[ky]) != 1 {
 					add("roundtrip_count:"+btag, "exchange %v: %d round trips (want 1)", ky, len(rts[ky]))
@@ -509,6 +720,17 @@ func run(sc scenario) (body func(), check func(r *vrt.Result) []finding) {
 					}
 					if has(beh, "reqerr") && rts[ky][0].Warning == "" {
 						add("reqerr_no_warning:"+btag, "exchange %v: request modifier error not surfaced as a Warning header on the forwarded request", ky)
+					} else if has(beh, "reqerr") && !strings.Contains(rts[ky][0].Warning, "request modifier failed") {
+						add("reqerr_warning_without_error:"+btag, "exchange %v: the Warning header on the forwarded request does not name the request modifier's error (%q)", ky, rts[ky][0].Warning)
+					}
+					if mutates(beh) && rts[ky][0].ReqMut != want {
+						add("reqmod_change_lost:"+btag, "exchange %v: the forwarded request does not carry the header the request modifier set (X-Req-Mut=%q)", ky, rts[ky][0].ReqMut)
+					}
+					if !mutates(beh) && rts[ky][0].ReqMut != "" {
+						add("reqmod_change_from_other_exchange:"+btag, "exchange %v: the forwarded request carries X-Req-Mut=%q, which only another exchange's request modifier set", ky, rts[ky][0].ReqMut)
+					}
+					if has(beh, "post") && !has(beh, "rterr") && rts[ky][0].Body != postBody {
+						add("request_body_changed:"+btag, "exchange %v: the round tripper read the body %q, the client sent %q", ky, rts[ky][0].Body, postBody)
 					}
 				}
 			}
@@ -532,67 +754,102 @@ func run(sc scenario) (body func(), check func(r *vrt.Result) []finding) {
 			if rs[0].Tick < c.Tick {
 				add("resmod_before_reqmod:"+btag, "exchange %v: response modifier ran before the request modifier", ky)
 			}
-			if (has(beh, "rterr") || (isConnect && has(beh, "dialerr"))) && rs[0].Warning == "" {
+			if (has(beh, "rterr") || (isConnect && (has(beh, "dialerr") || has(beh, "downerr")))) && rs[0].Warning == "" {
 				add("rterr_no_warning_in_resmod:"+btag, "exchange %v: the 502 seen by the response modifier has no Warning header", ky)
 			}
 		}
-		for k := 0; k < nExpected; k++ {
-			checkExchange("0", k, sc.Beh[k])
-		}
-		if sc.Second {
-			checkExchange("1", 0, "pass")
-			if sessByConn["0"] != nil && sessByConn["0"] == sessByConn["1"] {
-				add("session_shared_across_connections:"+tag, "two connections share one session")
+		// A modifier that asks to skip the round trip of a CONNECT the proxy would intercept: the statement fixes
+		// the 200 and the response modifier, not whether an intercepted tunnel follows. Serving the tunnel (what
+		// the proxy does) and closing after the 200 without reading anything from the tunnel (what it does for
+		// a blind tunnel) are both accepted; in the second case no exchange inside the tunnel is expected.
+		tunnelRefused := func(conn string) bool {
+			mode, beh := sc.spec(conn)
+			if !strings.HasPrefix(mode, "mitm") || !has(beh[0], "skip") {
+				return false
 			}
-		}
-		// no modifier call for anything else (e.g. a request sent after a hijack)
-		for ky, v := range reqs {
-			var k int
-			fmt.Sscanf(ky.seq, "%d", &k)
-			if ky.conn == "0" && k >= nExpected {
-				add("reqmod_on_unexpected_request:"+tag, "request modifier ran %d times for request %v (sent after the connection was hijacked / the tunnel was established)", len(v), ky)
-			}
-		}
-		// client side
-		for _, o := range obs {
-			if !o.done {
-				add("client_stuck:"+tag, "client %s did not finish even after the idle timeout", o.conn)
-				continue
-			}
-			if o.conn == "1" {
-				if o.err != "" || len(o.statuses) != 1 || o.statuses[0] != 200 {
-					add("second_connection_failed:"+tag, "second connection: statuses=%v err=%s", o.statuses, o.err)
+			for ky := range reqs {
+				if ky.conn == conn && ky.seq != "0" {
+					return false
 				}
-				continue
 			}
-			if o.err != "" {
-				add("client_error:"+tag, "client 0: %s", o.err)
+			for _, o := range obs {
+				if o.conn == conn {
+					return o.closedAfterConnect && len(o.statuses) == 1 && o.statuses[0] == 200
+				}
+			}
+			return false
+		}
+		expectFor := func(conn string) (int, int) {
+			mode, beh := sc.spec(conn)
+			if tunnelRefused(conn) {
+				return 1, -1
+			}
+			return expect(mode, beh)
+		}
+		// what each error of a behaviour must leave in the Warning headers of the response
+		warnTexts := func(b string) map[string]string {
+			m := map[string]string{}
+			if has(b, "reserr") {
+				m["reserr"] = "response modifier failed"
+			}
+			if has(b, "dialerr") {
+				m["dialerr"] = "simulated dial failure"
+			}
+			if has(b, "rterr") {
+				switch {
+				case has(b, "eof"):
+					m["rterr"] = "EOF"
+				case has(b, "timeout"):
+					m["rterr"] = "i/o timeout"
+				default:
+					m["rterr"] = "simulated round trip failure"
+				}
+			}
+			return m
+		}
+		checkClient := func(o *clientObs) {
+			_, beh := sc.spec(o.conn)
+			nExpected, hijackedAt := expectFor(o.conn)
+			if o.err != "" && !tunnelRefused(o.conn) {
+				add("client_error:"+tag, "client %s: %s", o.conn, o.err)
 			}
 			idx := 0
 			for k := 0; k < nExpected; k++ {
-				b := sc.Beh[k]
-				if isHijack(b) {
+				b := beh[k]
+				if isHijack(b) || has(b, "gone") {
 					break
 				}
 				if idx >= len(o.statuses) {
-					add("missing_response:"+tag+":"+b, "client 0 received no response for exchange %d (%s)", k, b)
+					add("missing_response:"+tag+":"+b, "client %s received no response for exchange %d (%s)", o.conn, k, b)
 					break
 				}
 				want := 200
-				if has(b, "rterr") || has(b, "dialerr") {
+				if has(b, "rterr") || has(b, "dialerr") || has(b, "downerr") {
 					want = 502
 				}
 				if o.statuses[idx] != want {
 					add("wrong_status:"+tag+":"+b, "exchange %d (%s): client received status %d, want %d", k, b, o.statuses[idx], want)
 				}
-				wantWarn := has(b, "reserr") || has(b, "rterr") || has(b, "dialerr")
+				wantWarn := has(b, "reserr") || has(b, "rterr") || has(b, "dialerr") || has(b, "downerr")
 				if wantWarn && !o.warnings[idx] {
 					add("no_warning_at_client:"+tag+":"+b, "exchange %d (%s): response reached the client without a Warning header", k, b)
+				} else if wantWarn {
+					texts := warnTexts(b)
+					for _, src := range vrt.SortedKeys(texts) {
+						if !strings.Contains(o.warnText[idx], texts[src]) {
+							add("warning_lost_at_client:"+tag+":"+b+":"+src, "exchange %d (%s): the response's Warning headers %q do not name the %s error (%q): not every error was surfaced", k, b, o.warnText[idx], src, texts[src])
+						}
+					}
+				}
+				if wantMut := o.conn + "/" + fmt.Sprint(k); mutates(b) && o.resMut[idx] != wantMut {
+					add("resmod_change_lost:"+tag+":"+b, "exchange %d (%s): the response reached the client without the header the response modifier set (X-Res-Mut=%q, want %q)", k, b, o.resMut[idx], wantMut)
+				} else if !mutates(b) && o.resMut[idx] != "" {
+					add("resmod_change_from_other_exchange:"+tag+":"+b, "exchange %d (%s): the response carries X-Res-Mut=%q, which only another exchange's response modifier set", k, b, o.resMut[idx])
 				}
 				idx++
 			}
 			if hijackedAt >= 0 {
-				hb := sc.Beh[hijackedAt]
+				hb := beh[hijackedAt]
 				if !o.gotMarker {
 					add("hijack_marker_lost:"+tag+":"+hb, "the bytes written by the hijacker did not reach the client (extra=%q)", o.extra)
 				}
@@ -602,21 +859,79 @@ func run(sc scenario) (body func(), check func(r *vrt.Result) []finding) {
 				if !o.eofAfter {
 					add("hijacked_conn_not_closed:"+tag+":"+hb, "hijacked connection was not closed after the modifier returned")
 				}
-			}
-		}
-		// proxy-side socket activity after a hijack
-		if hijackedAt >= 0 && srvConn["0"] != nil {
-			if t, ok := hijackRetTick["0"]; ok {
-				for _, op := range srvConn["0"].Ops {
-					if op.Tick > t && (op.Kind == "read" || op.Kind == "write") {
-						add("proxy_io_after_hijack:"+tag+":"+sc.Beh[hijackedAt]+":"+op.Kind, "proxy issued a %s on the connection after the hijacking modifier returned", op.Kind)
-						break
+				// proxy-side socket activity after the hijack
+				if sv := srvConn[o.conn]; sv != nil {
+					if t, ok := hijackRetTick[o.conn]; ok {
+						for _, op := range sv.Ops {
+							if op.Tick > t && (op.Kind == "read" || op.Kind == "write") {
+								add("proxy_io_after_hijack:"+tag+":"+hb+":"+op.Kind, "proxy issued a %s on the connection after the hijacking modifier returned", op.Kind)
+								break
+							}
+						}
+						if !sv.Closed() {
+							add("hijacked_conn_left_open:"+tag+":"+hb, "proxy never closed the hijacked connection")
+						}
 					}
 				}
-				if !srvConn["0"].Closed() {
-					add("hijacked_conn_left_open:"+tag+":"+sc.Beh[hijackedAt], "proxy never closed the hijacked connection")
+			}
+		}
+		conns := []string{"0"}
+		if sc.Second {
+			conns = append(conns, "1")
+		}
+		if sc.After {
+			conns = append(conns, "2")
+		}
+		for _, cn := range conns {
+			_, beh := sc.spec(cn)
+			nExpected, _ := expectFor(cn)
+			for k := 0; k < nExpected; k++ {
+				checkExchange(cn, k, beh[k])
+			}
+			// no modifier call for anything else (e.g. a request sent after a hijack)
+			var kys []key
+			for ky := range reqs {
+				kys = append(kys, ky)
+			}
+			sort.Slice(kys, func(i, j int) bool { return kys[i].conn+"/"+kys[i].seq < kys[j].conn+"/"+kys[j].seq })
+			for _, ky := range kys {
+				var k int
+				fmt.Sscanf(ky.seq, "%d", &k)
+				if ky.conn == cn && k >= nExpected {
+					add("reqmod_on_unexpected_request:"+tag, "request modifier ran %d times for request %v (sent after the connection was hijacked / the tunnel was established)", len(reqs[ky]), ky)
 				}
 			}
+		}
+		for i, a := range conns {
+			for _, b := range conns[i+1:] {
+				// the later connection starts when the others are over: an implementation may recycle the object,
+				// so it is told apart by what the API shows (id, stored values), not by its address
+				if b != "2" && sessByConn[a] != nil && sessByConn[a] == sessByConn[b] {
+					add("session_shared_across_connections:"+tag, "connections %s and %s share one session", a, b)
+				} else if sessIDByConn[a] != "" && sessIDByConn[a] == sessIDByConn[b] {
+					add("session_shared_across_connections:"+tag, "the sessions of connections %s and %s have the same id %s", a, b, sessIDByConn[a])
+				}
+			}
+		}
+		// client side
+		for _, o := range obs {
+			if !o.done {
+				add("client_stuck:"+tag, "client %s did not finish even after the idle timeout", o.conn)
+				continue
+			}
+			if o.conn == "1" && sc.Beh2 == nil && sc.Mode2 == "" {
+				if o.err != "" || len(o.statuses) != 1 || o.statuses[0] != 200 {
+					add("second_connection_failed:"+tag, "second connection: statuses=%v err=%s", o.statuses, o.err)
+				}
+				continue
+			}
+			if o.conn == "2" {
+				if o.err != "" || len(o.statuses) != 1 || o.statuses[0] != 200 {
+					add("later_connection_failed:"+tag, "a connection opened after all others had ended: statuses=%v err=%s", o.statuses, o.err)
+				}
+				continue
+			}
+			checkClient(o)
 		}
 		if staleCtx != 0 {
 			add("context_leak:"+tag, "%d requests of finished exchanges still resolve to a context (martian.NewContext)", staleCtx)
@@ -643,8 +958,15 @@ func firstLine(s string) string {
 
 func scenarios(tier string) []scenario {
 	var out []scenario
-	inner := []string{"pass", "reqerr", "reserr", "skip", "rterr", "hijack-req", "hijack-res", "rterr+hijack-res", "skip+hijack-res", "reqerr+hijack-res", "reqerr+reserr", "mlreqerr", "mlreserr", "mlreqerr+mlreserr", "rtclone", "skip+api+skiplog", "preapi+skip", "rterr+eof", "rterr+timeout"}
+	inner := []string{"pass", "reqerr", "reserr", "skip", "rterr", "hijack-req", "hijack-res", "rterr+hijack-res", "skip+hijack-res", "reqerr+hijack-res", "reqerr+reserr", "mlreqerr", "mlreserr", "mlreqerr+mlreserr", "rtclone", "skip+api+skiplog", "preapi+skip", "rterr+eof", "rterr+timeout",
+		// added by the audit: a modifier that only changes the messages; requests with a body (which a skipped
+		// or failed round trip leaves unread); two errors on one response; a hijacker whose modifier also fails
+		"mut", "post", "skip+post", "rterr+post", "rterr+reserr", "hijack-req+reqerr", "hijack-res+reserr",
+		// ... and a client that closes behind its request without waiting for the answer (always the last exchange)
+		"gone", "skip+gone", "rterr+gone", "reserr+gone"}
 	core := map[string]bool{"pass": true, "reqerr": true, "reserr": true, "skip": true, "rterr": true, "hijack-req": true, "hijack-res": true, "rtclone": true}
+	audit := map[string]bool{"mut": true, "post": true, "skip+post": true, "rterr+post": true, "rterr+reserr": true, "hijack-req+reqerr": true, "hijack-res+reserr": true,
+		"gone": true, "skip+gone": true, "rterr+gone": true, "reserr+gone": true}
 	// plain: all behaviour sequences of length 1..2 (3 thorough)
 	maxLen := 2
 	if tier == "thorough" {
@@ -655,10 +977,17 @@ func scenarios(tier string) []scenario {
 			return
 		}
 		var beh []string
+		nAudit, nCore := 0, 0
 		for i, x := range seq {
 			beh = append(beh, inner[x])
-			if isHijack(inner[x]) && i != len(seq)-1 {
-				return // nothing follows a hijack
+			if (isHijack(inner[x]) || has(inner[x], "gone")) && i != len(seq)-1 {
+				return // nothing follows a hijack or a client that left
+			}
+			if audit[inner[x]] {
+				nAudit++
+			}
+			if core[inner[x]] {
+				nCore++
 			}
 		}
 		if len(seq) >= 3 {
@@ -670,43 +999,116 @@ func scenarios(tier string) []scenario {
 				}
 			}
 		}
+		if len(seq) == 2 && nAudit > 0 && nCore == 0 {
+			return // the audit's behaviours are paired with the eight basic ones
+		}
 		out = append(out, scenario{Mode: "plain", Beh: beh})
-		hj := false
+		hj, gone := false, false
 		for _, b := range beh {
 			hj = hj || isHijack(b)
+			gone = gone || has(b, "gone")
 		}
-		if len(seq) >= 2 && !hj {
+		if len(seq) >= 2 && !hj && !gone {
+			out = append(out, scenario{Mode: "plain", Beh: beh, Pipe: true})
+		}
+		if hj && len(seq) <= 2 && (len(seq) == 1 || core[beh[0]]) {
+			// the hijacked exchange's request and one more request arrive in one segment
 			out = append(out, scenario{Mode: "plain", Beh: beh, Pipe: true})
 		}
 		if len(seq) <= 2 {
 			out = append(out, scenario{Mode: "plain", Beh: beh, Second: true})
 		}
+		if len(seq) == 1 {
+			out = append(out, scenario{Mode: "plain", Beh: beh, After: true})
+		}
 	})
-	for _, b0 := range []string{"pass", "reqerr", "reserr", "dialerr", "hijack-req", "hijack-res", "dialerr+hijack-res", "dialerr+reserr", "reqerr+hijack-res", "skip", "skip+reserr", "skip+hijack-res", "preapi+skip"} {
+	// two connections that both do something: every pair of the state-changing basic behaviours, and two
+	// exchanges on each side (context ids, sessions and the context table across 4 exchanges)
+	pairs := []string{"reqerr", "skip", "rterr", "hijack-req", "hijack-res", "post"}
+	for _, x := range pairs {
+		for _, y := range pairs {
+			out = append(out, scenario{Mode: "plain", Beh: []string{x}, Second: true, Beh2: []string{y}})
+		}
+	}
+	for _, two := range [][]string{{"pass", "pass"}, {"mut", "skip"}, {"rterr", "hijack-res"}, {"skip+post", "hijack-req"}} {
+		out = append(out, scenario{Mode: "plain", Beh: []string{"pass", "mut"}, Second: true, Beh2: two},
+			scenario{Mode: "plain", Beh: two, Second: true, Beh2: two, After: true})
+	}
+	for _, b0 := range []string{"pass", "reqerr", "reserr", "dialerr", "hijack-req", "hijack-res", "dialerr+hijack-res", "dialerr+reserr", "reqerr+hijack-res", "skip", "skip+reserr", "skip+hijack-res", "preapi+skip", "mut", "hijack-req+reqerr", "hijack-res+reserr", "gone", "reserr+gone"} {
 		out = append(out, scenario{Mode: "blind", Beh: []string{b0}}, scenario{Mode: "blind", Beh: []string{b0}, Second: true})
 		if !has(b0, "dialerr") {
 			out = append(out, scenario{Mode: "blind", Beh: []string{b0}, Down: true})
 		}
+		out = append(out, scenario{Mode: "blind", Beh: []string{b0}, After: true})
+	}
+	// the downstream proxy hangs up instead of answering the forwarded CONNECT (the second way into the 502 path)
+	for _, b0 := range []string{"downerr", "downerr+reserr", "downerr+hijack-res", "reqerr+downerr"} {
+		out = append(out, scenario{Mode: "blind", Beh: []string{b0}, Down: true}, scenario{Mode: "blind", Beh: []string{b0}, Down: true, After: true})
 	}
 	for _, mode := range []string{"mitm-plain", "mitm-tls"} {
 		for _, b0 := range []string{"pass", "reqerr", "reserr", "hijack-req", "hijack-res", "reqerr+hijack-res"} {
 			if isHijack(b0) {
-				out = append(out, scenario{Mode: mode, Beh: []string{b0}})
+				out = append(out, scenario{Mode: mode, Beh: []string{b0}}, scenario{Mode: mode, Beh: []string{b0}, After: true}, scenario{Mode: mode, Beh: []string{b0}, Pipe: true})
 				continue
 			}
 			for _, b1 := range inner {
 				out = append(out, scenario{Mode: mode, Beh: []string{b0, b1}})
-				if b0 == "pass" && !isHijack(b1) {
+				if b0 == "pass" && !isHijack(b1) && !has(b1, "gone") {
 					for _, b2 := range []string{"pass", "hijack-req", "hijack-res"} {
 						out = append(out, scenario{Mode: mode, Beh: []string{b0, b1, b2}})
 					}
 				}
 			}
 		}
+		// the CONNECT exchange itself skips its (non-existent) round trip, or only changes the messages
+		out = append(out, scenario{Mode: mode, Beh: []string{"gone"}}, scenario{Mode: mode, Beh: []string{"reqerr+gone"}, After: true})
+		for _, b0 := range []string{"skip", "mut", "skip+reserr"} {
+			for _, b1 := range inner {
+				if core[b1] || b1 == "mut" || b1 == "post" {
+					out = append(out, scenario{Mode: mode, Beh: []string{b0, b1}})
+				}
+			}
+		}
 		out = append(out, scenario{Mode: mode, Beh: []string{"pass", "pass"}, Second: true})
 		out = append(out, scenario{Mode: mode, Beh: []string{"pass", "pass", "reserr"}, Pipe: true}, scenario{Mode: mode, Beh: []string{"pass", "skip", "rterr"}, Pipe: true})
+		// audit: a request behind the hijacked one in the same segment (inside the tunnel); a later connection
+		// after a tunnel that ended in a hijack; unread request bodies inside the tunnel, pipelined; two
+		// intercepted tunnels at once
+		out = append(out,
+			scenario{Mode: mode, Beh: []string{"pass", "hijack-req"}, Pipe: true},
+			scenario{Mode: mode, Beh: []string{"pass", "pass", "hijack-res"}, Pipe: true},
+			scenario{Mode: mode, Beh: []string{"pass", "hijack-req"}, After: true},
+			scenario{Mode: mode, Beh: []string{"pass", "mut", "hijack-res"}, After: true},
+			scenario{Mode: mode, Beh: []string{"pass", "skip+post", "mut"}, Pipe: true},
+			scenario{Mode: mode, Beh: []string{"pass", "rterr+post", "post"}, Pipe: true},
+			scenario{Mode: mode, Beh: []string{"pass", "mut"}, Second: true, Mode2: mode, Beh2: []string{"pass", "hijack-req"}},
+			scenario{Mode: mode, Beh: []string{"reqerr", "skip"}, Second: true, Mode2: mode, Beh2: []string{"mut", "rterr"}, After: true})
 	}
 	return out
+}
+
+// added reports whether a scenario belongs to the families the audit added (see AUDIT.md).
+func added(sc scenario) bool {
+	if sc.After || sc.Beh2 != nil || sc.Mode2 != "" {
+		return true
+	}
+	for i, b := range sc.Beh {
+		for _, p := range strings.Split(b, "+") {
+			if p == "mut" || p == "post" || p == "gone" || p == "downerr" {
+				return true
+			}
+		}
+		if b == "rterr+reserr" || b == "hijack-req+reqerr" || b == "hijack-res+reserr" {
+			return true
+		}
+		if sc.Pipe && isHijack(b) {
+			return true
+		}
+		if i == 0 && strings.HasPrefix(sc.Mode, "mitm") && has(b, "skip") {
+			return true
+		}
+	}
+	return false
 }
 
 type shardOut struct {
@@ -768,11 +1170,17 @@ func main() {
 				b = 3
 				if len(sc.Beh) >= 3 {
 					b = 1 // the length-3 sequences are many (17^3 and their pipelined variants): deviation bound 1
+				} else if added(sc) {
+					b = 2 // the audit's scenarios (about half as many again): one deviation less than the original ones
 				}
 			}
 			if sc.Mode == "mitm-tls" {
 				b--
 			}
+			// the two probes the audit added to the modifiers lengthen every execution by a few scheduling
+			// points; at bound 3 that costs about a quarter more executions, so they stay with the bounds <= 2
+			// (all of quick, and in thorough the audit's scenarios and the sequences of three)
+			sc.Lean = b >= 3 || (b == 2 && sc.Mode == "mitm-tls" && !added(sc))
 			body, check := run(sc)
 			seen := map[string]bool{}
 			st := vrt.Explore(vrt.ExploreConfig{Bound: b, Deadline: time.Now().Add(per), Config: vrt.Config{MaxPoints: 100000}}, body, func(prefix []int, r *vrt.Result) bool {
@@ -793,6 +1201,13 @@ func main() {
 				fmt.Fprintln(os.Stderr, "ENGINE ERROR:", st.EngineError)
 				os.Exit(2)
 			}
+			if d := os.Getenv("C02_DUMP"); d != "" {
+				// development aid: per-scenario execution counts (to find a scenario whose count varies between runs)
+				if f, err := os.OpenFile(fmt.Sprintf("%s.%d", d, i), os.O_APPEND|os.O_CREATE|os.O_WRONLY, 0o644); err == nil {
+					fmt.Fprintf(f, "%s\texecs=%d\tlogs=%d\n", sc, st.Execs, st.DistinctLogs)
+					f.Close()
+				}
+			}
 			out.Counters["scenarios"]++
 			out.Counters["executions"] += int64(st.Execs)
 			out.Counters["points"] += st.Points
@@ -802,6 +1217,7 @@ func main() {
 				out.Counters["scenarios_with_multiple_outcomes"]++
 			}
 			if !st.Exhaustive {
+				out.Counters["scenarios_capped"]++
 				out.Incomplete = fmt.Sprintf("scenario {%s}: cap hit, bound completed %d", sc, st.BoundCompleted)
 			}
 			if st.BoundCompleted < out.MinBound {
@@ -849,8 +1265,18 @@ func main() {
 	rep.Coverage["transitions"] = rep.Counter("points")
 	rep.Coverage["traces_validated_against_impl"] = rep.Counter("executions")
 	rep.Coverage["bound_completed"] = minBound
+	rep.Coverage["evaluations"] = rep.Counter("executions")
+	rep.Coverage["distinct_nontrivial"] = rep.Counter("scenarios_with_multiple_outcomes")
+	rep.Coverage["rule"] = "a case is a scenario (proxy mode x behaviour of each exchange on the first connection x optional second concurrent connection with its own mode and behaviours x optional later connection x pipelining x downstream proxy); all its executions are the schedules with at most the stated number of deviations from the default schedule, and the whole oracle is evaluated on every one of them; a scenario counts as non-trivial when its observation log depends on the schedule (at least two distinct logs)"
 	rep.Coverage["exhaustive"] = rep.Incomplete == ""
-	rep.Coverage["bounds"] = fmt.Sprintf("%d scenarios: plain mode with all behaviour sequences (17 behaviours incl. combinations: errors with one- and multi-line messages, skip round trip combined with the other context marks in both orders, a RoundTripper answering on a clone of the request) up to length %d, blind CONNECT x 6 behaviours, MITM with plaintext / TLS inside x CONNECT behaviours x inner behaviours, optional second concurrent connection; every schedule with <= %d deviations (one less for TLS scenarios; sequences of three exchanges: <= 1)", len(scen), map[string]int{"quick": 2, "thorough": 3}[tier], map[string]int{"quick": 1, "thorough": 3}[tier])
+	nAdded := 0
+	for _, sc := range scen {
+		if added(sc) {
+			nAdded++
+		}
+	}
+	rep.Coverage["scenarios_added_by_audit"] = nAdded
+	rep.Coverage["bounds"] = fmt.Sprintf("%d scenarios (%d of them from the audit, AUDIT.md): plain mode with all behaviour sequences (30 behaviours incl. combinations: errors with one- and multi-line messages, two errors on one response, skip round trip combined with the other context marks in both orders, a RoundTripper answering on a clone of the request, modifiers that change the messages, requests with a body that a skipped or failed round trip leaves unread, hijackers whose modifier also fails, clients that close behind their request; the eleven newest paired with the eight basic ones) up to length %d, blind CONNECT x 16 behaviours (direct / through a downstream proxy), MITM with plaintext / TLS inside x CONNECT behaviours x inner behaviours; optional second concurrent connection (plain pass, or with behaviours / an intercepted tunnel of its own), optional later connection after all others have ended, pipelining (also of a request behind the hijacked one); every schedule with <= %d deviations (one less for TLS scenarios; sequences of three exchanges: <= 1; thorough, the audit's scenarios: <= 2)", len(scen), nAdded, map[string]int{"quick": 2, "thorough": 3}[tier], map[string]int{"quick": 1, "thorough": 3}[tier])
 	rep.Coverage["explanation"] = "each execution runs the real proxy.go/context.go over simnet under the gosim scheduler with recording modifiers; the clause that no context remains retrievable is judged through the public API (martian.NewContext on every request the modifiers saw)"
 	rep.Assumptions = []string{"round trips go through a synchronous harness RoundTripper (which validates header fields like http.Transport)", "TLS inside the tunnel uses crypto/tls unmodified on simnet connections", "unsynchronised accesses (context/session id generation, context table) are covered by the auxiliary free-running -race pass (sampling)"}
 	raceIters := "30"
